@@ -156,6 +156,19 @@ def put_name(rng, mb, kind, labels=None):
         mb.raw(W.encode_name([bytes([rng.choice([0, 46, 0x80, 0xff, 92, 32]) for _ in range(rng.randint(1, 5))]), b"bin"]))
     elif kind == "cut":
         mb.raw(bytes([9]) + b"abc")
+    elif kind == "fill-q":
+        # labels + pointer to the question name, expanding to a text length around the 253/255 limits (seed C33-1:
+        # the buffer boundaries of the resolver only show in replies this small with names this long)
+        need = rng.choice([250, 252, 253, 253, 254, 254, 255, 255, 256, 257]) - (mb.qlen - 2) - 1
+        labs = []
+        while need > 0:
+            l = min(63, need)
+            if need - l == 1:
+                l -= 1
+            labs.append(rand_label(rng, l)); need -= l
+            if need > 0:
+                need -= 1
+        mb.raw(b"".join(bytes([len(l)]) + l for l in labs) + b"\xc0\x0c")
     else:
         raise ValueError(kind)
 
@@ -201,9 +214,9 @@ def put_rr(rng, mb, qtype, kind, hostile):
         t = qtype if qtype in (T_A, T_AAAA) else T_A
         size = 4 if t == T_A else 16
         hdr(t, rng.choice([3, 4, 255, 0]), size); mb.raw(bytes(rng.randrange(256) for _ in range(size)))
-    elif kind in ("cname", "ptr", "ns"):
-        t = {"cname": T_CNAME, "ptr": T_PTR, "ns": 2}[kind]
-        tk = pick_name_kind(rng, hostile * 0.5)
+    elif kind in ("cname", "ptr", "ns", "cname-fill", "ptr-fill"):
+        t = {"cname": T_CNAME, "ptr": T_PTR, "ns": 2, "cname-fill": T_CNAME, "ptr-fill": T_PTR}[kind]
+        tk = "fill-q" if kind.endswith("-fill") else pick_name_kind(rng, hostile * 0.5)
         if tk == "ptr-fwd":
             tk = "literal"
         sub = MB(mb.qlen); sub.pos = mb.pos + 10
@@ -315,6 +328,10 @@ def gen_reply(rng, qtype, qname_wire_len, tcp=False, force_good=False):
     if rng.random() < 0.03:
         kinds += [match] * rng.choice([40, 70, 120])     # large reply (beyond 512 bytes)
         tags.add("large")
+    small = rng.random() < 0.05
+    if small:
+        kinds = ["ptr-fill"] if qtype == T_PTR else ["cname-fill", match]
+        tags.add("boundary-name")
     for k in kinds:
         put_rr(rng, mb, qtype, k, hostile)
     an = len(kinds)
@@ -326,11 +343,11 @@ def gen_reply(rng, qtype, qname_wire_len, tcp=False, force_good=False):
         elif r < 0.16: an = 0; tags.add("ancount-0")
     # --- authority / additional
     ns = 0
-    if rng.random() < (0.25 if kinds else 0.7):
+    if not small and rng.random() < (0.25 if kinds else 0.7):
         for _ in range(rng.choice([1, 1, 2])):
             put_rr(rng, mb, qtype, rng.choice(["soa", "soa", "ns", "addr"]), hostile); ns += 1
     ar = 0
-    if rng.random() < 0.3:
+    if not small and rng.random() < 0.3:
         for _ in range(rng.choice([1, 2])):
             put_rr(rng, mb, qtype, rng.choice(["opt", match, "addr", "txt"]), hostile); ar += 1
     if not good and rng.random() < 0.1:
